@@ -6,6 +6,8 @@ the simulated air (the chip's answers to the RF commands / the peer's datagrams)
 (a target with given attributes, None, or UnsupportedTargetError).  scenario(driver, kind) returns it; the host
 commands the driver issues for it are what DriverErr!Cmds(d, k) lists -- the trace validation compares.
 """
+import threading
+
 import nfc.clf
 
 from bind import c13_drivers as D
@@ -36,16 +38,19 @@ SENSF_REQ = H("00ffff0100")
 SENSE_KINDS = ("STTA2", "STTA4", "STTADEP", "STTA1", "STTA0", "STTA212", "STTB106", "STTB212", "STTB424", "STTB848",
                "STTF212", "STTF424", "SDEP106", "SDEP212", "SDEP424")
 LISTEN_KINDS = ("LA2", "LA4", "LA4D", "LADEP", "LA212", "LB106", "LF212", "LF424", "LDEPA", "LDEPF", "LDEPACT")
-OP_KINDS = SENSE_KINDS + LISTEN_KINDS
+CLOSE_KINDS = ("XCLOSE", "SCLOSE", "LCLOSE")     # frontend closed while exchange() / sense() / listen() waits for the lock
+OP_KINDS = SENSE_KINDS + LISTEN_KINDS + CLOSE_KINDS
 PN53X = ("pn531", "pn532", "pn533", "rcs956", "acr122", "arygon")
 
 
 def mode_of(kind):
-    return "sense" if kind in SENSE_KINDS else "listen"
+    return "sense" if kind in SENSE_KINDS else ("closed" if kind in CLOSE_KINDS else "listen")
 
 
 def method_of(kind):
     """the driver method the operation kind ends up in"""
+    if kind in CLOSE_KINDS:
+        return {"XCLOSE": "exchange", "SCLOSE": "sense", "LCLOSE": "listen"}[kind]
     if kind.startswith("SDEP"):
         return "sense_dep"
     if kind.startswith("LDEP"):
@@ -281,6 +286,8 @@ def scenario_udp(driver, kind):
 
 
 def scenario(driver, kind):
+    if kind in CLOSE_KINDS:
+        return Scn(None, "IOErr")
     if driver in PN53X:
         return scenario_pn53x(driver, kind)
     return {"rcs380": scenario_rcs380, "udp": scenario_udp}[driver](driver, kind)
@@ -293,9 +300,60 @@ def kinds_of(driver):
 
 
 # ---------------------------------------------------------------------------------------------------
+class _SpyLock(object):
+    """the frontend lock, telling when somebody starts to wait for it"""
+
+    def __init__(self, real):
+        self.real, self.waiting = real, threading.Event()
+
+    def __enter__(self):
+        self.waiting.set()
+        self.real.acquire()
+        return self
+
+    def __exit__(self, *a):
+        self.real.release()
+
+    def acquire(self, *a, **kw):
+        self.waiting.set()
+        return self.real.acquire(*a, **kw)
+
+    def release(self):
+        self.real.release()
+
+
+def closed_while_waiting(rig, kind):
+    """Another thread holds the frontend lock (as close() does) while `kind`'s call arrives; it sets device = None
+    and lets go.  Deterministic: the device is taken away only after the caller reached the lock."""
+    clf = rig.clf
+    real, dev = clf.lock, clf.device
+    spy = clf.lock = _SpyLock(real)
+    clf.target = _rt("106A", sens_res=H("4400"), sel_res=b"\x00", sdd_res=UID)
+    fn = {"XCLOSE": lambda: clf.exchange(b"\x30\x00", 0.1), "SCLOSE": lambda: clf.sense(_rt("106A")),
+          "LCLOSE": lambda: clf.listen(_listen_target("LA2"), 0.1)}[kind]
+    res = []
+    real.acquire()
+    t = threading.Thread(target=lambda: res.append(classify(fn)))
+    t.daemon = True
+    try:
+        t.start()
+        if not spy.waiting.wait(10):
+            raise RuntimeError("the caller never reached the frontend lock")
+        clf.device = None
+    finally:
+        real.release()
+    t.join(10)
+    clf.device, clf.lock, clf.target = dev, real, None
+    if not res:
+        return "Hang", "thread did not return", None
+    return res[0]
+
+
 def prepare(rig, kind):
     """Script the air for the scenario; returns (scenario, callable that performs the operation)."""
     scn = scenario(rig.driver, kind)
+    if kind in CLOSE_KINDS:
+        return scn, (lambda: closed_while_waiting(rig, kind))
     clf, dev = rig.clf, rig.device
     clf.target = None
     if rig.driver == "udp":
